@@ -122,7 +122,7 @@ def _history(rng, cls, index, ndata, tier="quick"):
     if not any(k.startswith("fit") for k in h):
         h.insert(0, rng.choice(["fit0", "fit1"]))
     r = rng.random()
-    if r < 0.3:
+    if r < (0.5 if cls == "TO" else 0.3):
         # another instance acts between a fit and a later prediction of the estimator under test
         i = next(j for j, k in enumerate(h) if k.startswith("fit"))
         h[i + 1:i + 1] = rng.choice([["twin", "predict"], ["predict", "twin", "predict"], ["twin", "scribble", "predict"]])
@@ -136,12 +136,13 @@ def gen_plan(seed, index, tier):
     plan = {"v": 1, "cls": cls}
     base = rng.choice(["exact", "lr"])
     if cls == "TO":
+        base = rng.choice(["exact", "exact", "lr"])
         cons = rng.choice(["demographic_parity", "equalized_odds", "true_positive_rate_parity", "false_negative_rate_parity"])
         plan["cfg"] = {"base": base, "constraints": cons,
                        "objective": rng.choice(["accuracy_score", "balanced_accuracy_score"]),
                        "grid_size": rng.choice([5, 10, 40]), "flip": rng.random() < 0.3, "prefit": rng.random() < 0.3,
                        "pm": rng.choice(["auto", "auto", "auto", "predict_proba"]),
-                       "stub_method": rng.choice(["predict_proba", "decision_function", "both", "both"])}
+                       "stub_method": rng.choice(["predict_proba", "decision_function", "both", "both", "both"])}
         if plan["cfg"]["pm"] == "predict_proba":
             plan["cfg"]["stub_method"] = "predict_proba"
         plan["data"] = [_cls_dataset(rng, True) for _ in range(ndata)]
